@@ -145,6 +145,11 @@ pub open spec fn recorded_rmw<T: AsRef<Keyspace>>(o: World, n: World, keyspace: 
 //@contract
     ensures r is Ok ==> recorded_rmw(*old(w), *final(w), &keyspace), // [C07:S1-S2-fetch_update-recorded-as-read-and-write]
 //@end
+//@extract src/tx/optimistic/write_tx.rs :: WriteTransaction :: take world props=C07+C08
+//@world self.fetch_update
+//@contract
+    ensures r is Ok ==> recorded_rmw(*old(w), *final(w), &keyspace), // [C07:S1-S2-take-recorded-as-read-and-write]
+//@end
 //@extract src/tx/optimistic/write_tx.rs :: WriteTransaction :: update_fetch world props=C07
 //@contract
     ensures r is Ok ==> recorded_rmw(*old(w), *final(w), &keyspace), // [C07:S1-S2-update_fetch-recorded-as-read-and-write]
